@@ -123,9 +123,8 @@ func gobEncodeItem(it Item) ([]byte, error) {
 	if IsObject(it) {
 		switch it.GetType() {
 		case IRIType:
-			var bytes []byte
-			bytes, err = it.(IRI).GobEncode()
-			b.Write(bytes)
+			// NOTE(marius): IRIs have been encoded above, this is an object that carries the IRI type name
+			fallthrough
 		case "", ObjectType, ArticleType, AudioType, DocumentType, EventType, ImageType, NoteType, PageType, VideoType:
 			err = OnObject(it, func(ob *Object) error {
 				bytes, err := ob.GobEncode()
